@@ -19,6 +19,7 @@ type RoachDevice struct {
 	nextS      FrameIndex
 	unwrapOpts AbacoUnwrapOptions
 	unwrap     []*PhaseUnwrapper
+	abort      <-chan struct{} // closed when the source stops; lets readPackets give up a pending send
 }
 
 // RoachSource represents multiple ROACH devices
@@ -123,6 +124,15 @@ func (dev *RoachDevice) samplePacket() error {
 	return err
 }
 
+// send puts a block on nextBlock unless the source has been stopped in the meantime
+// (after a stop nobody receives any more, and a plain send would block forever).
+func (dev *RoachDevice) send(nextBlock chan *dataBlock, block *dataBlock) {
+	select {
+	case nextBlock <- block:
+	case <-dev.abort:
+	}
+}
+
 // readPackets watches for UDP data from the Roach and sends it on chan nextBlock.
 // One trick is that the UDP packets are small and can come many thousand per second.
 // We should bundle these up into larger blocks and send these more like 10-100
@@ -147,7 +157,7 @@ func (dev *RoachDevice) readPackets(nextBlock chan *dataBlock) {
 		deadline := time.Now().Add(packetBundleTime)
 		if err = dev.conn.SetReadDeadline(deadline); err != nil {
 			block := dataBlock{err: err}
-			nextBlock <- &block
+			dev.send(nextBlock, &block)
 			return
 		}
 
@@ -164,7 +174,7 @@ func (dev *RoachDevice) readPackets(nextBlock chan *dataBlock) {
 				break
 			} else if err != nil {
 				block := dataBlock{err: err}
-				nextBlock <- &block
+				dev.send(nextBlock, &block)
 				return
 			}
 			savedPackets = append(savedPackets, p)
@@ -173,7 +183,7 @@ func (dev *RoachDevice) readPackets(nextBlock chan *dataBlock) {
 		if len(savedPackets) == 0 {
 			if time.Now().After(keepAlive) {
 				block := dataBlock{err: fmt.Errorf("ROACH source timed out after %v", packetKeepaliveTime)}
-				nextBlock <- &block
+				dev.send(nextBlock, &block)
 				return
 			}
 			continue
@@ -244,7 +254,7 @@ func (dev *RoachDevice) readPackets(nextBlock chan *dataBlock) {
 				framePeriod:     dev.period,
 			}
 		}
-		nextBlock <- block
+		dev.send(nextBlock, block)
 		if err != nil {
 			return
 		}
@@ -292,6 +302,7 @@ func (rs *RoachSource) StartRun() error {
 		defer close(rs.nextBlock)
 		nextBlock := make(chan *dataBlock)
 		for _, dev := range rs.active {
+			dev.abort = rs.abortSelf
 			go dev.readPackets(nextBlock)
 		}
 
